@@ -542,10 +542,29 @@ extern "C" int connect(int fd, const struct sockaddr *addr, socklen_t len)
 // process(): the I/O thread takes _cmdMutex to swap the command queue — log how many commands it takes
 using mutex_lock_t = int (*)(pthread_mutex_t *);
 static mutex_lock_t g_realMutexLock = nullptr;
+// Gate for "one accepted send is one command" (gate=1 cases): sender thread A makes ONE send() call with a large payload; the other
+// sender threads are released when the engine's command counter has moved (A's first enqueue is done). If that one send() call comes
+// back for _cmdMutex a SECOND time (i.e. it enqueues its payload in several commands), A is held here until the other threads'
+// first send() has returned — their command then sits between A's commands, deterministically. With one enqueue per send() the gate
+// never waits.
+static thread_local bool t_gateA = false;          // this thread is inside A's gated send() call
+static thread_local int t_gateLocks = 0;           // _cmdMutex acquisitions of that call so far
+static std::atomic<bool> g_gateArmed{false};
+static std::atomic<int> g_gateOthersDone{0};
+static std::atomic<int> g_gateOthers{0};
+static std::atomic<int> g_gateWaited{0};
 extern "C" int pthread_mutex_lock(pthread_mutex_t *m)
 {
   mutex_lock_t real = g_realMutexLock;
   if (!real) { real = reinterpret_cast<mutex_lock_t>(dlsym(RTLD_NEXT, "pthread_mutex_lock")); g_realMutexLock = real; }
+  if (t_gateA && g_engine && g_gateArmed.load() && m == g_engine->_cmdMutex.native_handle())
+  {
+    if (++t_gateLocks >= 2 && g_gateOthersDone.load() < g_gateOthers.load())
+    {
+      g_gateWaited++;
+      for (int i = 0; i < 20000 && g_gateOthersDone.load() < g_gateOthers.load(); ++i) { struct timespec ts{0, 100000}; nanosleep(&ts, nullptr); }
+    }
+  }
   int r = real(m);
   if (!t_harness && !t_inCallbackSend && g_engine && m == g_engine->_cmdMutex.native_handle())
   {
@@ -611,6 +630,7 @@ struct Case
   long peerDelayUs = 0, peerStartUs = 0;
   long long peerCloseAfter = -1;   // peer closes its end after having read this many bytes
   bool async = false;              // every second send goes through sendAsync
+  bool gate = false;               // nolock + gate: see the comment at pthread_mutex_lock (one accepted send = one command)
   bool nolock = false;             // senders call Transport::send concurrently (no harness mutex); payloads carry (thread, seq)
   std::vector<PeerWrite> s2;       // payloads for a SECOND live session on the same engine (not traced; cross-talk monitor)
   bool expectEarlyEnd = false;     // the schedule contains something that may legitimately end the session early
@@ -670,6 +690,7 @@ static bool parseCase(const std::vector<std::string> &t, Case &c)
     else if (k == "lossy") { if (!nat()) return false; c.lossy = n; }
     else if (k == "async") { if (!nat()) return false; c.async = n; }
     else if (k == "nolock") { if (!nat()) return false; c.nolock = n; }
+    else if (k == "gate") { if (!nat()) return false; c.gate = n; }
     else if (k == "gp")
     {
       g_gp.clear();
@@ -1110,6 +1131,15 @@ static void runCase(const Case &c, SSL_CTX *peerCli, SSL_CTX *peerSrv)
 
   std::vector<std::thread> senders;
   std::atomic<int> taggedAccepted{0};
+  const auto gateBase = eng->_atomicStats.commands.load();
+  {
+    // only threads that really have something to send count as "others"
+    std::set<int> others;
+    for (auto &it : c.sends) if (it.thr != 0 && it.len > 0) others.insert(it.thr);
+    g_gateOthers.store(static_cast<int>(others.size()));
+    g_gateOthersDone.store(0); g_gateWaited.store(0);
+    g_gateArmed.store(c.gate && c.nolock && c.thr >= 2);
+  }
   if (haveS2)
   {
     senders.emplace_back([&]
@@ -1133,6 +1163,13 @@ static void runCase(const Case &c, SSL_CTX *peerCli, SSL_CTX *peerSrv)
       {
         t_harness = true;
         unsigned seq = 0, idx = 0;
+        bool firstCall = true;
+        const bool gated = c.gate && c.nolock && c.thr >= 2;
+        if (gated && k != 0)
+        {
+          // released when the engine has counted a command since the senders started (thread 0's first enqueue)
+          for (int i = 0; i < 50000 && eng->_atomicStats.commands.load() <= gateBase; ++i) sleepUs(20);
+        }
         auto doSendCall = [&](const std::vector<std::uint8_t> &pl) -> bool
         {
           // every second call goes through sendAsync (its completion callback runs synchronously and reports the enqueue result)
@@ -1154,7 +1191,11 @@ static void runCase(const Case &c, SSL_CTX *peerCli, SSL_CTX *peerSrv)
             if (it.len == 0) continue;
             std::size_t ln = std::max<std::size_t>(it.len, 8);
             auto pl = mkTagged(static_cast<unsigned>(k), seq, ln);
-            if (doSendCall(pl)) { ++seq; g_expTotal.fetch_add(ln); taggedAccepted++; }
+            if (gated && k == 0 && firstCall) { t_gateLocks = 0; t_gateA = true; }
+            bool ok = doSendCall(pl);
+            if (gated && firstCall) { if (k == 0) t_gateA = false; else g_gateOthersDone++; }
+            firstCall = false;
+            if (ok) { ++seq; g_expTotal.fetch_add(ln); taggedAccepted++; }
           }
           else if (it.len == 0)
           {
@@ -1172,6 +1213,7 @@ static void runCase(const Case &c, SSL_CTX *peerCli, SSL_CTX *peerSrv)
     }
   }
   for (auto &th : senders) th.join();
+  g_gateArmed.store(false);
 
   std::size_t pwTotal = 0;
   for (auto &w : c.pw) pwTotal += w.len;
@@ -1256,7 +1298,17 @@ static void runCase(const Case &c, SSL_CTX *peerCli, SSL_CTX *peerSrv)
       if (seq != nextSeq[thr]) { tagErr = static_cast<long long>(pos); tagWhat = seq < nextSeq[thr] ? "duplicate-or-reordered-within-thread" : "lost-or-reordered-within-thread"; break; }
       if (pr.rx.size() - pos < ln) { tagErr = static_cast<long long>(pos); tagWhat = "truncated-frame"; break; }
       auto want = mkTagged(thr, seq, ln);
-      if (std::memcmp(want.data(), h, ln) != 0) { tagErr = static_cast<long long>(pos); tagWhat = "body-corrupt"; break; }
+      if (std::memcmp(want.data(), h, ln) != 0)
+      {
+        std::size_t off = 0;
+        while (off < ln && want[off] == h[off]) ++off;
+        tagErr = static_cast<long long>(pos + off);
+        // does another sender's frame start right there? then one accepted send was not contiguous on the wire
+        bool foreignFrame = ln - off >= 8 && h[off] == 'T' && h[off + 1] < static_cast<unsigned>(c.thr) && h[off + 1] != thr;
+        tagWhat = std::string(foreignFrame ? "foreign-frame-inside-a-payload(one-send-not-contiguous)" : "foreign-or-corrupt-bytes-inside-a-payload") +
+                  "@thread" + std::to_string(thr) + ".seq" + std::to_string(seq) + ".offset" + std::to_string(off);
+        break;
+      }
       nextSeq[thr]++;
       frames.push_back("T" + std::to_string(ln) + "." + std::to_string(thr) + "." + std::to_string(seq));
       pos += ln;
@@ -1301,12 +1353,12 @@ static void runCase(const Case &c, SSL_CTX *peerCli, SSL_CTX *peerSrv)
   for (auto &s : g_segs) std::printf("seg %s\n", s.c_str());
   std::printf("fin peer_rx=%zu exp_total=%zu peer_diff=%lld peer_eof=%d dlv=%zu pw_written=%zu pw_total=%zu dlv_diff=%lld closed_cb=%d close_why=%s "
               "connected_cb=%d accepted_cb=%d stall=%d foreign=%d peer_hs=%d moved=%d ms=%lld stall_outq=%ld stall_peer_inq=%ld "
-              "tag_err=%lld tag_what=%s tag_frames=%d tag_accepted=%d s2=%d s2_rx=%zu s2_total=%zu s2_diff=%lld note=%s\n",
+              "tag_err=%lld tag_what=%s tag_frames=%d tag_accepted=%d gate_waited=%d s2=%d s2_rx=%zu s2_total=%zu s2_diff=%lld note=%s\n",
               pr.rx.size(), c.nolock ? g_expTotal.load() : expect.size(), firstDiff(pr.rx, expect), pr.eof, delivered.size(), pr.written, pwTotal,
               firstDiff(delivered, pwAll), closedCb.load(), closeWhy.c_str(), connectedCb.load(), acceptedCb.load(), stall ? 1 : 0,
               g_foreignThread.load() ? 1 : 0, pr.hsOk ? 1 : 0, g_movedRetries,
               static_cast<long long>(std::chrono::duration_cast<milliseconds>(Clock::now() - caseStart).count()), stallOutq, stallPeerInq,
-              tagErr, tagWhat.c_str(), tagFrames, taggedAccepted.load(), haveS2 ? 1 : 0, pr2.rx.size(), expect2.size(), firstDiff(pr2.rx, expect2), pr.note.empty() ? "-" : pr.note.c_str());
+              tagErr, tagWhat.c_str(), tagFrames, taggedAccepted.load(), g_gateWaited.load(), haveS2 ? 1 : 0, pr2.rx.size(), expect2.size(), firstDiff(pr2.rx, expect2), pr.note.empty() ? "-" : pr.note.c_str());
   std::printf("end %s\n", c.id.c_str());
   std::fflush(stdout);
 }
